@@ -268,7 +268,30 @@ func (v *Vue) RenderFragment(w io.Writer, filename string, data any) error {
 func (v *Vue) render(w io.Writer, nodes []*html.Node) error {
 	// The serialiser does not look at Write results: remember the first failure and report it
 	ew := &errWriter{w: w}
+	// Text and inline elements at the top level (a fragment such as "Hello <b>{{ name }}</b>!")
+	// are one line of text: written as it is, like mixed content inside an element
+	// (only when nothing else is there: next to block elements the text keeps its own lines)
+	inline, blocks := false, false
 	for _, node := range nodes {
+		single := *node
+		single.NextSibling = nil
+		if hasInlineContent(&single) {
+			inline = true
+		} else if node.Type == html.ElementNode {
+			blocks = true
+		}
+	}
+	inline = inline && !blocks
+	for _, node := range nodes {
+		if inline {
+			if err := renderPreformatted(VueContext{}, ew, node); err != nil {
+				return err
+			}
+			if ew.err != nil {
+				return ew.err
+			}
+			continue
+		}
 		if err := renderNode(ew, node, 0); err != nil {
 			return err
 		}
